@@ -7,9 +7,11 @@ import (
 	"encoding/json"
 	"fmt"
 	"os"
+	"reflect"
 	"runtime"
 	"runtime/debug"
 	"testing"
+	"unsafe"
 
 	"github.com/bilibili/smgo/zzverif/hk"
 )
@@ -38,11 +40,56 @@ var vtStepFn func()
 func vtStepRun() { vtStepFn() }
 
 type stepPlan struct {
-	ID      uint64 `json:"id"`
-	Group   string `json:"group"`
-	Variant string `json:"variant"`
-	Class   string `json:"class"`
-	End     bool   `json:"end,omitempty"`
+	ID      uint64      `json:"id"`
+	Group   string      `json:"group"`
+	Variant string      `json:"variant"`
+	Class   string      `json:"class"`
+	Secret  [][2]uint64 `json:"secret_ranges,omitempty"` // (address, length) of key, round keys, nonce, aad, message, ciphertext
+	End     bool        `json:"end,omitempty"`
+}
+
+// stepPending: the byte ranges the NEXT traced operation works on (declared by whoever builds the call); the
+// offline taint interpreter marks them secret (tools/vtcheck -mode steps).
+var stepPending [][]byte
+
+func stepDeclare(bs ...[]byte) {
+	for _, b := range bs {
+		if len(b) > 0 {
+			stepPending = append(stepPending, b)
+		}
+	}
+}
+
+// stepRoundKeys finds the round keys inside a cipher / AEAD object by reflection (fields of uint32 arrays or slices):
+// a renamed field just means fewer declared sources, never a build failure.
+func stepRoundKeys(obj interface{}) [][]byte {
+	var out [][]byte
+	var walk func(v reflect.Value, depth int)
+	walk = func(v reflect.Value, depth int) {
+		if depth > 4 {
+			return
+		}
+		switch v.Kind() {
+		case reflect.Ptr, reflect.Interface:
+			if !v.IsNil() {
+				walk(v.Elem(), depth+1)
+			}
+		case reflect.Struct:
+			for i := 0; i < v.NumField(); i++ {
+				walk(v.Field(i), depth+1)
+			}
+		case reflect.Array:
+			if v.Type().Elem().Kind() == reflect.Uint32 && v.Len() > 0 && v.CanAddr() {
+				out = append(out, unsafe.Slice((*byte)(unsafe.Pointer(v.UnsafeAddr())), 4*v.Len()))
+			}
+		case reflect.Slice:
+			if v.Type().Elem().Kind() == reflect.Uint32 && v.Len() > 0 {
+				out = append(out, unsafe.Slice((*byte)(unsafe.Pointer(v.Pointer())), 4*v.Len()))
+			}
+		}
+	}
+	walk(reflect.ValueOf(obj), 0)
+	return out
 }
 
 type stepContents struct {
@@ -70,7 +117,12 @@ func TestVtracePublicSteps(t *testing.T) {
 	rng := hk.NewRNG(hk.Seed(), "steps")
 	traced := func(group, variant, class string, fn func()) {
 		id++
-		data, _ := json.Marshal(&stepPlan{ID: id, Group: group, Variant: variant, Class: class})
+		pl := &stepPlan{ID: id, Group: group, Variant: variant, Class: class}
+		for _, b := range stepPending {
+			pl.Secret = append(pl.Secret, [2]uint64{uint64(uintptr(unsafe.Pointer(&b[0]))), uint64(len(b))})
+		}
+		stepPending = nil
+		data, _ := json.Marshal(pl)
 		f.Write(append(data, '\n'))
 		vtStepFn = func() {
 			defer func() { recover() }()
@@ -112,12 +164,17 @@ func TestVtracePublicSteps(t *testing.T) {
 		blocks := make([]cipher.Block, len(cs))
 		for v, c := range cs {
 			c, v := c, v
+			stepDeclare(c.key)
 			traced(fmt.Sprintf("NewCipher#%d", round), names[v], "", func() { blocks[v], _ = NewCipher(c.key) })
 		}
+		usable := true
 		for v := range blocks {
 			if blocks[v] == nil {
-				t.Fatal("NewCipher failed")
+				usable = false // refused for some contents: the sequences above already differ; nothing to run the block methods on
 			}
+		}
+		if !usable {
+			continue
 		}
 		blocks[4] = blocks[0]
 		for _, op := range []string{"Encrypt", "Decrypt"} {
@@ -133,12 +190,15 @@ func TestVtracePublicSteps(t *testing.T) {
 						src = append(src, c.pt...)
 						dst = make([]byte, 40)
 					}
+					stepDeclare(src)
+					stepDeclare(stepRoundKeys(blk)...)
 					if op == "Encrypt" {
 						return func() { blk.Encrypt(dst, src) }
 					}
 					return func() { blk.Decrypt(dst, src) }
 				}
 				untraced(call(blocks[1], cs[0]))
+				stepPending = nil
 				for v, c := range cs {
 					traced(fmt.Sprintf("Block.%s/%s#%d", op, shape, round), names[v], "", call(blocks[v], c))
 				}
@@ -172,8 +232,15 @@ func TestVtracePublicSteps(t *testing.T) {
 			cs := mkContents(c.nonceLen, pl, aadLen)
 			blocks := make([]cipher.Block, len(cs))
 			aeads := make([]cipher.AEAD, len(cs))
+			usable := true
 			for v := range cs {
 				blocks[v], _ = NewCipher(cs[v].key)
+				if blocks[v] == nil {
+					usable = false
+				}
+			}
+			if !usable {
+				continue
 			}
 			blocks[4] = blocks[0]
 			c := c
@@ -185,10 +252,14 @@ func TestVtracePublicSteps(t *testing.T) {
 					aeads[4] = aeads[0]
 					continue
 				}
+				stepDeclare(stepRoundKeys(blocks[v])...)
 				traced(fmt.Sprintf("cipher.%s/pt=%d", c.name, pl), names[v], "", func() { aeads[v], _ = c.mk(blocks[v]) })
 				if aeads[v] == nil {
-					t.Fatal("AEAD constructor failed")
+					usable = false
 				}
+			}
+			if !usable {
+				continue
 			}
 			for _, shape := range []string{"dst=nil", "in-place", "prefix+room"} {
 				shape := shape
@@ -204,12 +275,15 @@ func TestVtracePublicSteps(t *testing.T) {
 					case "prefix+room":
 						dst = make([]byte, 5, 5+len(c.pt)+16)
 					}
+					stepDeclare(c.nonce, pt, c.aad)
+					stepDeclare(stepRoundKeys(a)...)
 					return func() { *out = a.Seal(dst, c.nonce, pt, c.aad) }
 				}
 				var sink []byte
 				warmC := mkContents(c.nonceLen, pl, aadLen)[0]
 				wa, _ := c.mk(wb)
 				untraced(seal(wa, warmC, &sink))
+				stepPending = nil
 				cts := make([][]byte, len(cs))
 				for v := range cs {
 					traced(fmt.Sprintf("%s.Seal/%s/pt=%d,aad=%d", c.name, shape, pl, aadLen), names[v], "", seal(aeads[v], cs[v], &cts[v]))
@@ -222,6 +296,8 @@ func TestVtracePublicSteps(t *testing.T) {
 					} else if shape == "prefix+room" {
 						dst = make([]byte, 5, 5+len(ct))
 					}
+					stepDeclare(c.nonce, buf, c.aad)
+					stepDeclare(stepRoundKeys(a)...)
 					return func() { a.Open(dst, c.nonce, buf, c.aad) }
 				}
 				strip := func(ct []byte) []byte {
@@ -231,6 +307,7 @@ func TestVtracePublicSteps(t *testing.T) {
 					return ct
 				}
 				untraced(open(wa, warmC, strip(sink)))
+				stepPending = nil
 				for v := range cs {
 					traced(fmt.Sprintf("%s.Open/%s/pt=%d,aad=%d", c.name, shape, pl, aadLen), names[v], "authentic", open(aeads[v], cs[v], strip(cts[v])))
 				}
@@ -256,7 +333,16 @@ func TestVtracePublicSteps(t *testing.T) {
 					}
 					return ct
 				}
+				complete := true
+				for v := range cts {
+					if len(strip(cts[v])) != pl+aeads[v].Overhead() {
+						complete = false // a Seal failed for some contents (reported through its sequence): no forgeries to build
+					}
+				}
 				for i, kind := range []string{"first-tag-byte", "last-tag-byte", "first-byte", "all-zero", "tag-of-other"} {
+					if !complete {
+						break
+					}
 					v := []int{0, 1, 2, 3, 5}[i]
 					traced(fmt.Sprintf("%s.Open/%s/pt=%d,aad=%d", c.name, shape, pl, aadLen), "forged:"+kind+"/"+names[v], "forged", open(aeads[v], cs[v], forge(v, kind)))
 				}
